@@ -77,6 +77,20 @@ def _space(tier):
                     for code in (list(range(256)) if tier == "thorough" else [1, 2, 3, 4, 6, 11, 0x80]):
                         for ka in (False, True):
                             out.append(("exc", tr, ci, k, code, ka, "queued_caller"))
+        # Modbus/TCP devices known for a wrong MBAP length field (the library ignores the field for that reason):
+        # the exception frame announces 6 (the request's header echoed), 0, or far too much
+        for ci in range(len(CMDS)):
+            for k in (0, 1):
+                for code in (list(range(256)) if tier == "thorough" else [1, 2, 3, 4, 6, 11, 0x80]):
+                    for q in ("mbap_six", "mbap_zero", "mbap_big"):
+                        out.append(("exc", "tcp", ci, k, code, bool((code + k + ci) & 1), q))
+        # the refusal reaches the client twice (duplicated datagram) and the caller issues its next request at the
+        # instant it got the refusal: that next request is a request of its own
+        for ci in range(len(CMDS)):
+            for k in (0, 1):
+                for code in (list(range(256)) if tier == "thorough" else [1, 2, 3, 4, 6, 11, 0x80]):
+                    for ka in (False, True):
+                        out.append(("exc", "udp", ci, k, code, ka, "dup_next"))
         for tr in ("udp", "tcp"):
             for ka in (False, True):
                 out.append(("texts", tr, ka))
@@ -148,6 +162,11 @@ def run_exc(case):
         hdr = 9 if tr == "tcp" else 5
         faults = [{"k": "drop"}] * k + [{"k": "multi", "parts": [{"what": "prefix", "s": hdr, "d": d / 2},
                                                                 {"what": "exc", "code": code, "d": d}]}]
+    elif case.get("prior") in ("mbap_six", "mbap_zero", "mbap_big"):
+        n = {"mbap_six": 6, "mbap_zero": 0, "mbap_big": 40}[case["prior"]]
+        faults = pre + [{"k": "exc", "code": code, "d": d, "ops": [["set", 4, n >> 8], ["set", 5, n & 0xFF]]}]
+    elif case.get("prior") == "dup_next":
+        faults = pre + [{"k": "exc", "code": code, "d": d, "again": d + 2 * DEFAULT_LATENCY}]
     else:
         faults = pre + [{"k": "exc", "code": code, "d": d}]
     queued = case.get("prior") == "queued_caller"
@@ -166,6 +185,11 @@ def run_exc(case):
         t = asyncio.ensure_future(other()) if queued else None
         state["rec"] = await C.do_execute(world, proto, case["cmd"], "req")
         state["ntx_at_return"] = world.net.n_tx
+        if case.get("prior") == "dup_next":
+            # answered after the duplicate has arrived
+            world.net.begin_script([{"k": "ok", "d": 4 * DEFAULT_LATENCY}], {"k": "ok"})
+            state["next"] = await C.do_execute(world, proto, {"op": "read", "reg": 61001, "count": 1}, "next")
+            state["ntx_at_return"] = world.net.n_tx - (state["next"]["tx1"] - state["next"]["tx0"])
         await asyncio.sleep((r + 2) * tau)
         if t is not None:
             await t
@@ -185,6 +209,8 @@ def run_exc(case):
             check_text(violations, code, rec["msg"], tr)
         dls = [x for x in net.deliveries if x["status"] == "delivered" and x["kind"] == "data"]
         dls = [x for x in dls if x["tx"] == k]
+        if case.get("prior") == "dup_next":
+            dls = dls[:1]
         if not dls:
             violations.append(viol(f"C08:no-delivery:{tr}", "exception frame was not delivered"))
         elif rec["t1"] != dls[-1]["t_run"]:
@@ -201,7 +227,14 @@ def run_exc(case):
         elif state["ntx_at_return"] != k + 1:
             violations.append(viol(f"C08:tx-count:{tr}:{op}",
                                    f"{state['ntx_at_return']} transmissions before the rejection, expected {k + 1}"))
-        if not queued and net.n_tx != state["ntx_at_return"]:
+        nxt = state.get("next")
+        if nxt is not None:
+            if nxt["outcome"] != "result":
+                violations.append(viol(f"C08:next-request:{tr}:{'ka' if case['keep_alive'] else 'noka'}",
+                                       f"the request issued right after the refusal ended as {nxt['outcome']} "
+                                       f"{nxt.get('exc')!r} although the inverter answered it (the refusal had been "
+                                       f"delivered twice)"))
+        elif not queued and net.n_tx != state["ntx_at_return"]:
             violations.append(viol(f"C08:retransmit-after:{tr}:{op}",
                                    f"{net.n_tx - state['ntx_at_return']} transmissions after the rejection"))
     sig = (tr, op, code, k, case["delay"], case["keep_alive"], case.get("prior"))
